@@ -267,7 +267,11 @@ func populate(fs *specfs.FS, bigDir int) {
 
 var faultErrs = []error{syscall.EACCES, syscall.EPERM, syscall.ENOSPC, syscall.EIO, syscall.ENAMETOOLONG, syscall.EFBIG, syscall.EISDIR,
 	syscall.ENOTDIR, syscall.EEXIST, syscall.ENOENT, os.ErrInvalid, syscall.EDQUOT, syscall.EROFS, syscall.ESTALE, syscall.ENOTEMPTY,
-	fmt.Errorf("some backend failure")}
+	fmt.Errorf("some backend failure"),
+	// errno values the server has no special case for (whatever the backend says, the status word must be an nfsstat3 member)
+	syscall.ELOOP, syscall.EBUSY, syscall.ENOMEM, syscall.EMFILE, syscall.EBADF, syscall.EINTR, syscall.EAGAIN, syscall.ENODEV,
+	syscall.ETXTBSY, syscall.EMLINK, syscall.ENXIO, syscall.EXDEV, syscall.EINVAL, syscall.E2BIG, syscall.ERANGE, syscall.EDEADLK,
+	syscall.ENOSYS, syscall.ENOTSUP, syscall.ETIMEDOUT, syscall.ECONNRESET, syscall.Errno(3), syscall.Errno(71), syscall.Errno(200)}
 
 func newWorld(r *Rand, cfg config) *world {
 	opts := absnfs.ExportOptions{ReadOnly: cfg.ro, Secure: cfg.secure, TransferSize: cfg.tsize, Squash: "none",
